@@ -43,7 +43,7 @@ def run_proc(cmd, lines, timeout, env_extra=None, limit_cpu=None, limit_mem=None
         return -999, out, "TIMEOUT"
 
 
-def run_impl(cfg, kind, lines, guard=False, timeout=120, per_case_cpu=20, extra_args=(), extra_env=None):
+def run_impl(cfg, kind, lines, guard=False, timeout=120, per_case_cpu=20, extra_args=(), extra_env=None, max_crashes=None):
     """returns list of observation strings, one per input line; a crashed/hung case yields
     'CRASH <rc> <first line of the report>' and the batch resumes after it"""
     out = []
@@ -85,6 +85,11 @@ def run_impl(cfg, kind, lines, guard=False, timeout=120, per_case_cpu=20, extra_
         out.extend(got[:done])
         out.append("CRASH rc=%d %s" % (rc, summarize(err)))
         i += done + 1
+        if max_crashes is not None:
+            max_crashes -= 1
+            if max_crashes <= 0:
+                out.extend(["SKIPPED-AFTER-CRASH"] * (n - i))
+                break
     return out
 
 
